@@ -751,6 +751,12 @@ def fresh_source(ctx):
             if "__code__" in txt:
                 ctx.check(txt in ("str(func.__code__.__hash__())", "str(hash(func.__code__))"), r, "source-less functions are fingerprinted by the hash of the whole code object (constants and names included)",
                           "source-less functions are fingerprinted by %s, which does not cover the whole code object: a redefinition that only changes constants is not detected" % txt)
+    for r in nodes_of_type(f, ast.Return):
+        txt = ast.unparse(r.value)
+        if "func.args" in txt or "func.func" in txt or "func.keywords" in txt:
+            ctx.check("func.args" in txt and "func.keywords" in txt and "func.func" in ast.unparse(f), r, "a partial is fingerprinted by its function, positional AND keyword arguments",
+                      "a functools.partial is fingerprinted by %s only: partials differing in the other frozen arguments look like the same code and share cached results" % (
+                          [x for x in ("func.func", "func.args", "func.keywords") if x in txt]))
     fl = [a for a in nodes_of_type(f, ast.Assign) if "first_line" in stores_to(a)]
     ctx.check(bool(fl) and unparse(fl[0].value) == "code.co_firstlineno", fl[0] if fl else f, "the block is taken from the function's current first line")
 
